@@ -121,8 +121,11 @@ def r07_3(ctx):
     q.need(loops, 'finish_at_shutdown has no drain loop')
     loop = loops[0]
     tests = [t for t in cfg.where(lambda t: t.kind == 'test' and t.stmt is loop.stmt)]
-    txts = {q.norm_guard(fi, t.ast, True) for t in tests}
-    ok = ('self.cache', True) in txts and (q.eq_text('self._state', 'TERMINATE'), False) in txts and len(txts) == 2
+    first = [n for n in cfg.nodes if n.id in cfg.live and q.inside(fi, n, loop.stmt.body[:1])]
+    q.need(first, 'finish_at_shutdown: drain loop has no body')
+    # what holds when an iteration starts (independent of how the condition is spelled)
+    txts = set.intersection(*[q.guards_norm(fi, n, srcs=[loop]) for n in first])
+    ok = ('self.cache', True) in txts and (q.eq_text('self._state', 'TERMINATE'), False) in txts and len(tests) == 2
     ctx.ob('R07.3', 'finish_at_shutdown:loops-while-cache-nonempty', ok, fi, loop.stmt,
            'while cache and self._state != TERMINATE  (normal form %s)' % sorted(txts))
     polls = [(n, c) for (n, c) in q.calls(fi, 'self.poll') if q.inside(fi, n, loop.stmt.body)]
